@@ -933,6 +933,9 @@ class Function(Ring):
 
         elif type(F.x) == type(None):
             # case if the function F has no output, e.g. None = F(x)
+            if not isinstance(F.args[0].x, algopy.UTPM):
+                # an in-place write into a plain (constant) array: nothing to differentiate
+                return lambda x: None
             f = eval('__import__("algopy.utpm").utpm.'+F.args[0].x.__class__.__name__+'.pb_'+func_name)
 
         elif numpy.isscalar(F.x) or isinstance(F.x, numpy.ndarray):
